@@ -1572,6 +1572,15 @@ def explore(ctx, rep, rng, tier, tmpdir, events):
     # E. directed: one trigger per kind known on the pinned tree, and controls
     for name, a, pw, ops, expect in directed_cases(rng):
         add("directed: " + name, a, pw, ops, origin="directed", expect=expect, bud=budget + 1.0)
+    # a start header whose NextHeaderSize / NextHeaderOffset reach far beyond the file, read from a real file (a BytesIO clamps a
+    # read by itself, a buffered file object allocates what it is asked for): the reader must not ask for the declared size at once
+    va = arch.make_archive([("a.txt", b"hello world" * 10)], chain="copy", encoded=False)
+    vp, vh = split(va)
+    for n in (2 ** 32, 2 ** 40, 2 ** 62, 2 ** 63 - 1):
+        add("directed: regression: NextHeaderSize %d in a %d-byte file" % (n, len(va)), seal(vh, vp, size=n), None, ["getnames"],
+            mode="file", origin="directed", expect=None, bud=budget + 1.0)
+        add("directed: regression: NextHeaderOffset %d in a %d-byte file" % (n, len(va)), seal(vh, vp, ofs=n), None, ["getnames"],
+            mode="file", origin="directed", expect=None, bud=budget + 1.0)
 
     results = run_cases(cases, tmpdir, budget, workers=14, batch=24)
 
